@@ -170,7 +170,11 @@ func c02Decide(r *core.Run, idx int, c c02Case, total map[string]int, sample boo
 func harvestTestStrings() []string {
 	seen := map[string]bool{}
 	var res []string
-	files, _ := filepath.Glob("/repo/*_test.go")
+	repo := os.Getenv("VERIF_REPO")
+	if repo == "" {
+		repo = "/repo"
+	}
+	files, _ := filepath.Glob(repo + "/*_test.go")
 	sort.Strings(files)
 	fset := token.NewFileSet()
 	for _, f := range files {
